@@ -57,6 +57,8 @@ class Universe:
             md.append({"metadata_type": "add_method_type_info", "type_string": t, "method_name": "charge", "return_type": "float"})
             md.append({"metadata_type": "add_method_type_info", "type_string": t, "method_name": "vals", "return_type_element": "double"})
             md.append({"metadata_type": "add_method_type_info", "type_string": t, "method_name": "hits", "return_type_element": "int"})
+            # a method whose C++ type is not what the tree stores (an enum written as int): used by fixed queries only
+            md.append({"metadata_type": "add_method_type_info", "type_string": t, "method_name": "color", "return_type": "MyNS::Color", "tree_type": "int"})
         return md
 
 
@@ -690,6 +692,27 @@ class Gen:
             src += f".Where(lambda {v}: {self.pred(v, [], 1)})"
             self.q.feat.add("event_where")
             self.q.ops += 1
+        if "shared_shapes" in self.allow and self.r.random() < 0.12:
+            # two shapes in which ONE lambda parameter is used at two loop levels
+            v = self.q.var("e")
+            self.cur_event = v
+            s = self.objseq(v, [], 1)
+            js, o = self.q.var("js"), self.q.var("j")
+            self.q.ops += 3
+            if self.r.random() < 0.5:
+                # the sequence bound to a parameter is both the row loop and the source of an event-level column
+                m = self.r.choice(self.u.dbl_methods)
+                agg = self.r.choice([f"{js}.Count()", f"{js}.Select(lambda {self.q.var('s')}: 1).Sum()"])
+                self.q.feat.add("shared_param_rows")
+                src += f".Select(lambda {v}: {s}).SelectMany(lambda {js}: {js}.Select(lambda {o}: ({o}.{m}(), {agg})))"
+            else:
+                # a self-join over a sub-collection of one object: the inner use must get its own loop
+                x1, x2 = self.q.var("x"), self.q.var("x")
+                meth, cmp = self.r.choice([("vals", ">"), ("hits", "<"), ("vals", "!=")])
+                self.q.feat.add("selfjoin_inner")
+                src += (f".Select(lambda {v}: {s}.Select(lambda {o}: {o}.{meth}().Select(lambda {x1}: "
+                        f"{o}.{meth}().Where(lambda {x2}: {x2} {cmp} {x1}).Count())))")
+            return src, self.q
         if "selectmany_inside" in self.allow and self.r.random() < 0.18:
             # one row per object, built INSIDE the SelectMany lambda: the event stays in scope, so a column may be a
             # terminal (First/Count/Sum ...) over another collection of the event evaluated once per outer object
